@@ -111,6 +111,35 @@ theorem c20_runner_one_launch_per_name (dflt : Env) (cfg : J) (names : List Stri
   intro i hi
   simp [List.getElem?_map, List.getElem?_eq_getElem hi]
 
+/-- **Loadable and failing names mixed, in any order.**  When some of the requested names cannot be loaded
+(`good n = false`: the loader raises for them) the runner launches exactly the loadable ones — each once, in
+the order named, with its own configuration — and nothing for a failing name, wherever it stands in the list
+and however often it is repeated. -/
+theorem c20_runner_mixed_names (dflt : Env) (cfg : J) (names : List String) (spec : String → Spec)
+    (good : String → Bool)
+    (hg : ∀ n ∈ names, good n = true → ValidFor cfg n (spec n))
+    (hb : ∀ n ∈ names, good n = false → ∃ err, load (.json cfg) n = .error err) :
+    (entry .runner dflt (.json cfg) names).launches
+      = (names.filter good).map (fun n => configured dflt (spec n)) := by
+  simp only [entry]
+  induction names with
+  | nil => rfl
+  | cons x xs ih =>
+    have ihx := ih (fun n hn => hg n (by simp [hn])) (fun n hn => hb n (by simp [hn]))
+    cases hx : good x with
+    | true =>
+      have hv := hg x (by simp) hx
+      have h1 : toOpt (one dflt (.json cfg) x) = some (configured dflt (spec x)) := by
+        have := c20_launch_exact .loader dflt cfg x (spec x) hv
+        simp only [entry] at this
+        split at this <;> simp_all [toOpt]
+      simp only [List.filterMap_cons, h1, List.filter_cons, hx, if_true, List.map_cons, ihx]
+    | false =>
+      obtain ⟨err, he⟩ := hb x (by simp) hx
+      have h1 : toOpt (one dflt (.json cfg) x) = none := by simp [one, he, toOpt]
+      simp only [List.filterMap_cons, h1, List.filter_cons, hx, ihx]
+      simp
+
 /-- the document does not mention server `n`: no `mcpServers` member, or no member `n` in it -/
 def Unknown (top : List (String × J)) (n : String) : Prop :=
   jget top "mcpServers" = none ∨ ∃ servers, jget top "mcpServers" = some (.obj servers) ∧ jget servers n = none
